@@ -73,6 +73,7 @@ def handleFault (op : String) (args : List String) : Option String :=
         | .readFrom t c => CW.readFrom acc.1 t c
       (r.2.2, acc.2 ++ [s!"{r.1}:{if r.2.1 then "1" else "0"}"])) (CW.init k (← room.toNat?), [])
     pure s!"{s.written} {s.received} {",".intercalate rets}"
+  | "c18.retain", _ :: _ => pure "same"     -- the model's serializers are pure functions: results are values, inputs are never written
   | "faultlen", kind :: rest => do
     match ← faultFreeOutput kind rest with
     | none => pure "inputerr"
